@@ -53,6 +53,8 @@ func (cfg *Config) VerifyConfig(schema base.LogSchema) error {
 func (tf *parseTimeTransform) Transform(record *base.LogRecord) base.FilterResult {
 	value := tf.keyLocator.Get(record.Fields)
 	if len(value) == 0 {
+		// an empty timestamp is as invalid as any other malformed one: count it, keep the receive time
+		tf.errorCounter(record.RawLength)
 		return base.PASS
 	}
 	tm, err := parseRFC3339Timestamp(value, tf.timezoneCache)
